@@ -42,6 +42,9 @@ def explicit_arity(kind):
     return int(m.group(2)) if m and m.group(2) else None
 
 
+SIZED_BY_CONNECTION = False   # alternative reading used only to classify a finding: sized AND3/NAND4/... take their arity from the connected pins
+
+
 def prim(kind, ins, zero, ones):
     """Value of a primitive's output.  ins: list of values, None = unconnected pin (reads constant 0)."""
     c = classify(kind)
@@ -49,7 +52,8 @@ def prim(kind, ins, zero, ones):
     fam, ar, inv = c
     if ar is None:
         hi = max([i for i, v in enumerate(ins) if v is not None], default=-1)
-        ar = max(2, hi + 1)
+        ar = explicit_arity(kind)
+        if ar is None or SIZED_BY_CONNECTION: ar = max(2, hi + 1)
     v = [(ins[i] if i < len(ins) and ins[i] is not None else zero) for i in range(ar)]
     if fam == 'buf': r = v[0]
     elif fam == 'and':
